@@ -14,7 +14,7 @@ VARIABLE c
 Init == c = [stage |-> 0]
 Next == \/ c.stage = 0 /\ \E cl \in Classes, l \in BOOLEAN : c' = [stage |-> 1, class |-> cl, little |-> l]
         \/ c.stage = 1 /\ \E sy \in BOOLEAN, dy \in BOOLEAN, dn \in BOOLEAN, hs \in BOOLEAN, pd \in BOOLEAN :
-                             /\ (pd => dn) /\ (hs => dy)
+                             /\ (hs => dy)      \* pd without dn: PT_DYNAMIC designates a plain PROGBITS section (no SHT_DYNAMIC)
                              /\ c' = [c EXCEPT !.stage = 2] @@ [sy |-> sy, dy |-> dy, dn |-> dn, hs |-> hs, pd |-> pd]
 
 SymBytes(class, little) ==
@@ -31,10 +31,11 @@ SecList ==
     (IF c.dy THEN << [Sec(<<46, 100, 121>>, 11, SymBytes(c.class, c.little)) EXCEPT !.link = 2, !.entsize = CSize("sym", c.class)] >> ELSE <<>>) \o
     (IF c.sy THEN << [Sec(<<46, 115, 121>>, 2, SymBytes(c.class, c.little)) EXCEPT !.link = 2, !.entsize = CSize("sym", c.class)] >> ELSE <<>>) \o
     << Sec(<<46, 116, 120>>, 1, <<1, 2, 3>>) >> \o
-    (IF c.dn THEN << [Sec(<<46, 100>>, 6, DynBytes(c.class, c.little)) EXCEPT !.entsize = CSize("dyn", c.class), !.link = 2] >> ELSE <<>>) \o
+    (IF c.dn THEN << [Sec(<<46, 100>>, 6, DynBytes(c.class, c.little)) EXCEPT !.entsize = CSize("dyn", c.class), !.link = 2] >>
+     ELSE IF c.pd THEN << Sec(<<46, 100, 98>>, 1, DynBytes(c.class, c.little)) >> ELSE <<>>) \o
     (IF c.hs THEN << [Sec(<<46, 104>>, 5, HashBytes(c.little)) EXCEPT !.link = 3, !.entsize = 4] >> ELSE <<>>) \o
     << Sec(<<46, 116>>, 1, <<9>>), Sec(<<46, 255, 254>>, 9, Zeros(CSize("rel", c.class))), Sec(<<46, 116>>, 7, <<>>) >>
-DynIdx == CHOOSE i \in 0..(Len(SecList) - 1) : SecList[i + 1].type = 6
+DynIdx == CHOOSE i \in 0..(Len(SecList) - 1) : SecList[i + 1].type = 6 \/ SecList[i + 1].name = <<46, 100, 98>>
 SegList == IF c.pd THEN << [type |-> 2, flags |-> 6, sec |-> DynIdx, off |-> 0, filesz |-> 0, memsz |-> 0, align |-> 8] >> ELSE <<>>
 
 FileB == BuildObj(c.class, c.little, SecList, SegList, [DefaultOpts EXCEPT !.shstrndx = 1, !.early = c.little])
@@ -55,10 +56,13 @@ Prop_C20 ==
        \* one-pass discovery = targeted accessors
        /\ (IF c.sy THEN st.out = "ok" /\ cd.symtab = st.sym /\ cd.symtab_strs = st.str ELSE st.out = "none" /\ cd.symtab = <<>> /\ cd.symtab_strs = <<>>)
        /\ (IF c.dy THEN ds.out = "ok" /\ cd.dynsyms = ds.sym /\ cd.dynsyms_strs = ds.str ELSE ds.out = "none" /\ cd.dynsyms = <<>>)
-       /\ (IF c.dn THEN dn.out = "ok" /\ cd.dynamic.start = dn.start /\ cd.dynamic.len = dn.len ELSE dn.out = "none" /\ cd.dynamic = <<>>)
+       /\ (IF c.dn THEN dn.out = "ok" /\ cd.dynamic.start = dn.start /\ cd.dynamic.len = dn.len
+           ELSE /\ dn.out = "none"                               \* the targeted accessor has no PT_DYNAMIC fallback when sections exist
+                /\ (IF c.pd THEN cd.dynamic # <<>> /\ FSub(f, cd.dynamic.start, cd.dynamic.len) = DynBytes(c.class, c.little)
+                    ELSE cd.dynamic = <<>>))
        /\ (cd.sysv_hash # <<>>) = c.hs /\ cd.gnu_hash = <<>>
        \* through the section = through the segment
-       /\ c.pd => (LET p == PhdrAt(f, eb, 0) IN Val(p["p_offset"]) = dn.start /\ Val(p["p_filesz"]) = dn.len)
+       /\ (c.pd /\ c.dn) => (LET p == PhdrAt(f, eb, 0) IN Val(p["p_offset"]) = dn.start /\ Val(p["p_filesz"]) = dn.len)
        \* by name: the first section with exactly that name
        /\ \A n \in QNames : LET r == ShdrByName(f, eb, n, FALSE) i == FirstNamed(n)
                             IN IF i < 0 THEN r.out = "none" ELSE r.out = "ok" /\ r.index = i
